@@ -1,0 +1,25 @@
+//go:build verif
+
+package wallet
+
+import "sync/atomic"
+
+// Verification hook (build tag "verif" only): named gate points inside wallet
+// operations. The conformance harness installs a function that may block at a
+// point, which turns an interleaving found by the model checker into a
+// deterministic schedule on the real code. Without the tag verifGate is a no-op.
+
+type verifGateFunc func(w *Wallet, point string)
+
+var verifGateFn atomic.Value // verifGateFunc
+
+// VerifSetGate installs (or, with nil, removes) the gate function.
+func VerifSetGate(fn func(w *Wallet, point string)) {
+	verifGateFn.Store(verifGateFunc(fn))
+}
+
+func verifGate(w *Wallet, point string) {
+	if fn, ok := verifGateFn.Load().(verifGateFunc); ok && fn != nil {
+		fn(w, point)
+	}
+}
